@@ -150,8 +150,8 @@ class CxxModule:
             did = _callee_decl(raw)
             if did is not None:
                 for ns in cands:
-                    if ns.f.node.get('id') == did:
-                        return ns
+                    if did in (ns.f.node.get('id'), ns.f.node.get('previousDecl')):
+                        return ns           # the definition itself, or the definition of the declaration the call names
         for ns in cands:
             ok = True
             for i in ns.byref:
@@ -1251,7 +1251,7 @@ class AEval:
                     at.append(env.get('\x00ty:' + y.a[0]) if y.k == 'var' else None)
                 callee = self.module.select(name, len(args_e), at, raw=getattr(e, 'raw', None))
                 cands = self.module.overloads.get('%s/%d' % (name, len(args_e)), [])
-                if callee is not None and len(cands) > 1 and getattr(e, 'raw', None) is not None and _callee_decl(e.raw) == callee.f.node.get('id'):
+                if callee is not None and len(cands) > 1 and getattr(e, 'raw', None) is not None and _callee_decl(e.raw) is not None and _callee_decl(e.raw) in (callee.f.node.get('id'), callee.f.node.get('previousDecl')):
                     cands = [callee]             # the compiler's own resolution
                 if len(cands) > 1 and not any(c_.byref for c_ in cands):
                     # instantiations / overloads that differ in a parameter of class type: the one that takes the class of the argument
